@@ -78,8 +78,17 @@ pub enum BKind {
     BackendIp,
     /// ... calling `*_par_blocks` / `*_tail_blocks` / `*_block` with separate in/out buffers
     BackendInout,
+    /// method-call syntax on the *concrete* mode type, `m.encrypt_block(&mut b)` per block: an
+    /// inherent method of that name (a "fast path" added to the type) takes precedence over the
+    /// trait's, which generic code can never see. Falls back to the trait call for types that
+    /// the instantiation crates did not register (`conc_enc!` / `conc_dec!`).
+    ConcBlock,
+    /// ... `m.encrypt_blocks(&mut [b])`
+    ConcBlocks,
+    /// ... `m.encrypt_blocks_b2b(in, out)`
+    ConcBlocksB2b,
 }
-pub const ALL_BKINDS: [BKind; 9] = [
+pub const ALL_BKINDS: [BKind; 12] = [
     BKind::BlockIp,
     BKind::BlockInout,
     BKind::BlockB2b,
@@ -89,13 +98,19 @@ pub const ALL_BKINDS: [BKind; 9] = [
     BKind::BlocksB2b,
     BKind::BackendIp,
     BKind::BackendInout,
+    BKind::ConcBlock,
+    BKind::ConcBlocks,
+    BKind::ConcBlocksB2b,
 ];
 impl BKind {
     pub fn is_b2b(self) -> bool {
-        matches!(self, BKind::BlockInout | BKind::BlockB2b | BKind::BlocksInoutB2b | BKind::BlocksB2b | BKind::BackendInout)
+        matches!(self, BKind::BlockInout | BKind::BlockB2b | BKind::BlocksInoutB2b | BKind::BlocksB2b | BKind::BackendInout | BKind::ConcBlocksB2b)
     }
     pub fn is_multi(self) -> bool {
-        matches!(self, BKind::BlocksIp | BKind::BlocksInoutIp | BKind::BlocksInoutB2b | BKind::BlocksB2b | BKind::BackendIp | BKind::BackendInout)
+        matches!(
+            self,
+            BKind::BlocksIp | BKind::BlocksInoutIp | BKind::BlocksInoutB2b | BKind::BlocksB2b | BKind::BackendIp | BKind::BackendInout | BKind::ConcBlocks | BKind::ConcBlocksB2b
+        )
     }
     /// the in-place twin / b2b twin of a kind
     pub fn twin(self) -> BKind {
@@ -109,6 +124,9 @@ impl BKind {
             BKind::BlocksB2b => BKind::BlocksIp,
             BKind::BackendIp => BKind::BackendInout,
             BKind::BackendInout => BKind::BackendIp,
+            BKind::ConcBlock => BKind::BlockB2b,
+            BKind::ConcBlocks => BKind::ConcBlocksB2b,
+            BKind::ConcBlocksB2b => BKind::ConcBlocks,
         }
     }
     pub fn name(self) -> &'static str {
@@ -122,6 +140,9 @@ impl BKind {
             BKind::BlocksB2b => "blocks_b2b",
             BKind::BackendIp => "with_backend(inplace methods)",
             BKind::BackendInout => "with_backend(inout methods)",
+            BKind::ConcBlock => "concrete.block",
+            BKind::ConcBlocks => "concrete.blocks",
+            BKind::ConcBlocksB2b => "concrete.blocks_b2b",
         }
     }
 }
@@ -405,25 +426,141 @@ use std::any::TypeId;
 use std::collections::HashMap;
 use std::sync::{Mutex, OnceLock};
 
-static CLONE_REG: OnceLock<Mutex<HashMap<TypeId, (usize, usize)>>> = OnceLock::new();
+/// a function pointer kept as a raw pointer (not as an integer: that would strip its provenance,
+/// which Miri rightly refuses to call through)
+#[derive(Clone, Copy)]
+pub struct FnPtr(*const ());
+// SAFETY: function pointers are plain addresses of immutable code
+unsafe impl Send for FnPtr {}
+unsafe impl Sync for FnPtr {}
+impl FnPtr {
+    const NULL: FnPtr = FnPtr(core::ptr::null());
+    fn is_null(self) -> bool {
+        self.0.is_null()
+    }
+}
+
+static CLONE_REG: OnceLock<Mutex<HashMap<TypeId, (FnPtr, FnPtr)>>> = OnceLock::new();
 
 pub fn register_clone<T: 'static>(clone: Option<fn(&T) -> T>, clone_from: Option<fn(&mut T, &T)>) {
     let m = CLONE_REG.get_or_init(|| Mutex::new(HashMap::new()));
-    m.lock().unwrap().insert(TypeId::of::<T>(), (clone.map(|f| f as usize).unwrap_or(0), clone_from.map(|f| f as usize).unwrap_or(0)));
+    m.lock().unwrap().insert(TypeId::of::<T>(), (clone.map(|f| FnPtr(f as *const ())).unwrap_or(FnPtr::NULL), clone_from.map(|f| FnPtr(f as *const ())).unwrap_or(FnPtr::NULL)));
 }
 pub fn lookup_clone<T: 'static>() -> (Option<fn(&T) -> T>, Option<fn(&mut T, &T)>) {
     let Some(m) = CLONE_REG.get() else { return (None, None) };
     match m.lock().unwrap().get(&TypeId::of::<T>()) {
-        // SAFETY: the usize values were produced from fn pointers of exactly these types for
+        // SAFETY: the pointers were produced from fn pointers of exactly these types for
         // exactly this T (keyed by TypeId) in `register_clone`
         Some(&(c, cf)) => unsafe {
             (
-                if c == 0 { None } else { Some(core::mem::transmute::<usize, fn(&T) -> T>(c)) },
-                if cf == 0 { None } else { Some(core::mem::transmute::<usize, fn(&mut T, &T)>(cf)) },
+                if c.is_null() { None } else { Some(core::mem::transmute::<*const (), fn(&T) -> T>(c.0)) },
+                if cf.is_null() { None } else { Some(core::mem::transmute::<*const (), fn(&mut T, &T)>(cf.0)) },
             )
         },
         None => (None, None),
     }
+}
+
+/// method-call-syntax entry points of a concrete block-mode type (see `BKind::ConcBlock`)
+pub struct ConcBlkFns<M: BlockSizeUser> {
+    pub block: fn(&mut M, &mut Block<M>),
+    pub blocks: fn(&mut M, &mut [Block<M>]),
+    pub blocks_b2b: fn(&mut M, &[Block<M>], &mut [Block<M>]) -> bool,
+}
+impl<M: BlockSizeUser> Clone for ConcBlkFns<M> {
+    fn clone(&self) -> Self {
+        *self
+    }
+}
+impl<M: BlockSizeUser> Copy for ConcBlkFns<M> {}
+/// ... of a concrete keystream core type
+pub struct ConcCoreFns<T: BlockSizeUser> {
+    pub apply_blocks: fn(&mut T, &mut [Block<T>]),
+    pub write_blocks: fn(&mut T, &mut [Block<T>]),
+}
+impl<T: BlockSizeUser> Clone for ConcCoreFns<T> {
+    fn clone(&self) -> Self {
+        *self
+    }
+}
+impl<T: BlockSizeUser> Copy for ConcCoreFns<T> {}
+
+static CONC_REG: OnceLock<std::sync::RwLock<HashMap<TypeId, [FnPtr; 3]>>> = OnceLock::new();
+fn conc_reg() -> &'static std::sync::RwLock<HashMap<TypeId, [FnPtr; 3]>> {
+    CONC_REG.get_or_init(|| std::sync::RwLock::new(HashMap::new()))
+}
+pub fn register_conc_blk<M: BlockSizeUser + 'static>(f: ConcBlkFns<M>) {
+    conc_reg().write().unwrap().insert(TypeId::of::<M>(), [FnPtr(f.block as *const ()), FnPtr(f.blocks as *const ()), FnPtr(f.blocks_b2b as *const ())]);
+}
+pub fn lookup_conc_blk<M: BlockSizeUser + 'static>() -> Option<ConcBlkFns<M>> {
+    let v = *conc_reg().read().unwrap().get(&TypeId::of::<M>())?;
+    // SAFETY: the values were produced from fn pointers of exactly these types for exactly this M
+    // (keyed by TypeId) in `register_conc_blk`
+    Some(unsafe {
+        ConcBlkFns {
+            block: core::mem::transmute::<*const (), fn(&mut M, &mut Block<M>)>(v[0].0),
+            blocks: core::mem::transmute::<*const (), fn(&mut M, &mut [Block<M>])>(v[1].0),
+            blocks_b2b: core::mem::transmute::<*const (), fn(&mut M, &[Block<M>], &mut [Block<M>]) -> bool>(v[2].0),
+        }
+    })
+}
+// (a separate map: `ofb::OfbCore` is both a block mode and a keystream core)
+static CONC_CORE_REG: OnceLock<std::sync::RwLock<HashMap<TypeId, [FnPtr; 3]>>> = OnceLock::new();
+fn conc_core_reg() -> &'static std::sync::RwLock<HashMap<TypeId, [FnPtr; 3]>> {
+    CONC_CORE_REG.get_or_init(|| std::sync::RwLock::new(HashMap::new()))
+}
+pub fn register_conc_core<T: BlockSizeUser + 'static>(f: ConcCoreFns<T>) {
+    conc_core_reg().write().unwrap().insert(TypeId::of::<T>(), [FnPtr(f.apply_blocks as *const ()), FnPtr(f.write_blocks as *const ()), FnPtr::NULL]);
+}
+pub fn lookup_conc_core<T: BlockSizeUser + 'static>() -> Option<ConcCoreFns<T>> {
+    let v = *conc_core_reg().read().unwrap().get(&TypeId::of::<T>())?;
+    // SAFETY: as above, for `register_conc_core`
+    Some(unsafe {
+        ConcCoreFns {
+            apply_blocks: core::mem::transmute::<*const (), fn(&mut T, &mut [Block<T>])>(v[0].0),
+            write_blocks: core::mem::transmute::<*const (), fn(&mut T, &mut [Block<T>])>(v[1].0),
+        }
+    })
+}
+pub fn conc_registered() -> usize {
+    conc_reg().read().unwrap().len() + conc_core_reg().read().unwrap().len()
+}
+
+/// `conc_enc!(Type)` / `conc_dec!(Type)` / `conc_core!(Type)`: must be expanded where `Type` is concrete
+#[macro_export]
+macro_rules! conc_enc {
+    ($t:ty) => {{
+        #[allow(unused_imports)]
+        use $crate::re::cipher::BlockModeEncrypt;
+        $crate::subj::register_conc_blk::<$t>($crate::subj::ConcBlkFns {
+            block: |m: &mut $t, b| m.encrypt_block(b),
+            blocks: |m: &mut $t, bs| m.encrypt_blocks(bs),
+            blocks_b2b: |m: &mut $t, i, o| m.encrypt_blocks_b2b(i, o).is_ok(),
+        });
+    }};
+}
+#[macro_export]
+macro_rules! conc_dec {
+    ($t:ty) => {{
+        #[allow(unused_imports)]
+        use $crate::re::cipher::BlockModeDecrypt;
+        $crate::subj::register_conc_blk::<$t>($crate::subj::ConcBlkFns {
+            block: |m: &mut $t, b| m.decrypt_block(b),
+            blocks: |m: &mut $t, bs| m.decrypt_blocks(bs),
+            blocks_b2b: |m: &mut $t, i, o| m.decrypt_blocks_b2b(i, o).is_ok(),
+        });
+    }};
+}
+#[macro_export]
+macro_rules! conc_core {
+    ($t:ty) => {{
+        #[allow(unused_imports)]
+        use $crate::re::cipher::StreamCipherCore;
+        $crate::subj::register_conc_core::<$t>($crate::subj::ConcCoreFns {
+            apply_blocks: |c: &mut $t, bs| c.apply_keystream_blocks(bs),
+            write_blocks: |c: &mut $t, bs| c.write_keystream_blocks(bs),
+        });
+    }};
 }
 
 pub struct CloneProbe<T>(pub PhantomData<T>);
@@ -792,6 +929,30 @@ where
                 let order = order_of(inp);
                 m.encrypt_with_backend(UserClosure { inp: chunks::<M::BlockSize>(inp), out: chunks_mut::<M::BlockSize>(out), inplace: false, order });
             }
+            BKind::ConcBlock => {
+                out.copy_from_slice(inp);
+                let f = lookup_conc_blk::<M>();
+                for b in chunks_mut::<M::BlockSize>(out) {
+                    match &f {
+                        Some(f) => (f.block)(m, b),
+                        None => m.encrypt_block(b),
+                    }
+                }
+            }
+            BKind::ConcBlocks => {
+                out.copy_from_slice(inp);
+                match lookup_conc_blk::<M>() {
+                    Some(f) => (f.blocks)(m, chunks_mut::<M::BlockSize>(out)),
+                    None => m.encrypt_blocks(chunks_mut::<M::BlockSize>(out)),
+                }
+            }
+            BKind::ConcBlocksB2b => {
+                let ok = match lookup_conc_blk::<M>() {
+                    Some(f) => (f.blocks_b2b)(m, chunks::<M::BlockSize>(inp), chunks_mut::<M::BlockSize>(out)),
+                    None => m.encrypt_blocks_b2b(chunks::<M::BlockSize>(inp), chunks_mut::<M::BlockSize>(out)).is_ok(),
+                };
+                assert!(ok, "harness: equal lengths");
+            }
         }
     }
     fn blocks_b2b_raw(&mut self, inp: &[u8], out: &mut [u8]) -> bool {
@@ -904,6 +1065,30 @@ where
             BKind::BackendInout => {
                 let order = order_of(inp);
                 m.decrypt_with_backend(UserClosure { inp: chunks::<M::BlockSize>(inp), out: chunks_mut::<M::BlockSize>(out), inplace: false, order });
+            }
+            BKind::ConcBlock => {
+                out.copy_from_slice(inp);
+                let f = lookup_conc_blk::<M>();
+                for b in chunks_mut::<M::BlockSize>(out) {
+                    match &f {
+                        Some(f) => (f.block)(m, b),
+                        None => m.decrypt_block(b),
+                    }
+                }
+            }
+            BKind::ConcBlocks => {
+                out.copy_from_slice(inp);
+                match lookup_conc_blk::<M>() {
+                    Some(f) => (f.blocks)(m, chunks_mut::<M::BlockSize>(out)),
+                    None => m.decrypt_blocks(chunks_mut::<M::BlockSize>(out)),
+                }
+            }
+            BKind::ConcBlocksB2b => {
+                let ok = match lookup_conc_blk::<M>() {
+                    Some(f) => (f.blocks_b2b)(m, chunks::<M::BlockSize>(inp), chunks_mut::<M::BlockSize>(out)),
+                    None => m.decrypt_blocks_b2b(chunks::<M::BlockSize>(inp), chunks_mut::<M::BlockSize>(out)).is_ok(),
+                };
+                assert!(ok, "harness: equal lengths");
             }
         }
     }
@@ -1591,7 +1776,14 @@ where
                     c.write_keystream_block(b);
                 }
             }
-            CoreOp::WriteBlocks => c.write_keystream_blocks(chunks_mut::<T::BlockSize>(out)),
+            CoreOp::WriteBlocks => {
+                // every other call goes through method-call syntax on the concrete core type where
+                // the instantiation crates registered it (an inherent method would take precedence)
+                match lookup_conc_core::<T>().filter(|_| (out.len() / T::BlockSize::USIZE.max(1)) % 2 == 1) {
+                    Some(f) => (f.write_blocks)(c, chunks_mut::<T::BlockSize>(out)),
+                    None => c.write_keystream_blocks(chunks_mut::<T::BlockSize>(out)),
+                }
+            }
             CoreOp::ApplyBlockInout => {
                 for (i, o) in chunks::<T::BlockSize>(inp).iter().zip(chunks_mut::<T::BlockSize>(out)) {
                     c.apply_keystream_block_inout((i, o).into());
@@ -1599,7 +1791,10 @@ where
             }
             CoreOp::ApplyBlocks => {
                 out.copy_from_slice(inp);
-                c.apply_keystream_blocks(chunks_mut::<T::BlockSize>(out));
+                match lookup_conc_core::<T>().filter(|_| order_of(inp) % 2 == 1) {
+                    Some(f) => (f.apply_blocks)(c, chunks_mut::<T::BlockSize>(out)),
+                    None => c.apply_keystream_blocks(chunks_mut::<T::BlockSize>(out)),
+                }
             }
             CoreOp::ApplyBlocksInout => {
                 let b = InOutBuf::new(chunks::<T::BlockSize>(inp), chunks_mut::<T::BlockSize>(out)).unwrap();
